@@ -418,6 +418,117 @@ func TestVerifC05Surgery(t *testing.T) {
 	_ = detrand.Used
 }
 
+// vfC05LongRun: a session of n equally long frames from the reference peer in which frame `at` carries the
+// sealed body of frame `from` behind its own length field.  The frame counter is part of every nonce, so a body
+// only opens at its own position, however far apart the two positions are (256, 512, 65536: the distances
+// at which a counter that loses a carry repeats).  The intact frames before the spliced one are released
+// first: they are what an honest peer sent, so all of them are delivered and no error is reported yet.
+func vfC05LongRun(br vfBridge, entKey uint64, victimIsClient bool, n, payload, from, at, readBuf int) string {
+	ent := vfEnt(entKey)
+	s, err := vfRefSession(br, ent, victimIsClient, false)
+	if s != nil && s.N != nil {
+		defer s.N.Shutdown()
+	}
+	if err != nil {
+		return "INFRA: reference session: " + err.Error()
+	}
+	s.Ep.KeepReading(3)
+	s.Ep.SetBuf(readBuf)
+	dir := byte(1)
+	if !victimIsClient {
+		dir = 0
+	}
+	frames := make([][]byte, n)
+	for i := range frames {
+		frames[i] = s.Enc.Frame(refobfs4.PktPayload, vfCounterStream(dir, i*payload, payload), 0)
+	}
+	stream, damaged, _ := vfApplySurgery(frames, vfSurgery{Kind: "splice-body", Frame: at, Other: from}, nil)
+	prefix := 0
+	for _, f := range frames[:damaged] {
+		prefix += len(f)
+	}
+	total, bound := n*payload, damaged*payload
+	s.N.Inject(s.RefSide, stream)
+	if prefix > 0 {
+		s.N.Release(s.RefSide, prefix)
+		if err := s.N.WaitQuiescent(s.RealSide); err != nil {
+			return "VIOL[c05-wedge]: " + err.Error()
+		}
+		if msg := vfC05Prefix(s, dir, total, bound); msg != "" {
+			return msg
+		}
+		if rerr := s.Ep.ReadErr(); rerr != nil || s.Ep.GotLen() != bound {
+			return fmt.Sprintf("VIOL[c05-intact-frames-rejected]: %d intact frames (%d payload bytes) as the reference peer sends them, nothing altered yet: the victim delivered %d bytes and Read reported %v (the victim does not follow the frame counter sequence of the deployed format)", damaged, bound, s.Ep.GotLen(), rerr)
+		}
+	}
+	s.N.ReleaseAll(s.RefSide)
+	if err := s.N.WaitQuiescent(s.RealSide); err != nil {
+		return "VIOL[c05-wedge]: " + err.Error()
+	}
+	if msg := vfC05Prefix(s, dir, total, bound); msg != "" {
+		return msg + fmt.Sprintf(" (body of frame %d spliced into frame %d)", from, at)
+	}
+	rerr := s.Ep.ReadErr()
+	if rerr == nil {
+		return fmt.Sprintf("VIOL[c05-undetected]: frame %d carries the sealed body of frame %d and %d genuine frames follow; everything has been read and Read has not reported an error; delivered %d bytes", at, from, n-at-1, s.Ep.GotLen())
+	}
+	if errors.Is(rerr, io.EOF) {
+		return "VIOL[c05-eof-instead-of-error]: Read reported io.EOF for a damaged stream"
+	}
+	s.N.EOF(s.RefSide)
+	if err := s.N.WaitQuiescent(s.RealSide); err != nil {
+		return "VIOL[c05-wedge]: " + err.Error()
+	}
+	if msg := vfC05Prefix(s, dir, total, bound); msg != "" {
+		return msg
+	}
+	vfCloseTwice(s.Ep.Conn())
+	return ""
+}
+
+func TestVerifC05LongSession(t *testing.T) {
+	vfSetup(t)
+	c := ev.For("C05")
+	c.Rule("long-session: the real client or server (victim) reads n = 3..600 equally long frames (payload 1, 5 or 8 bytes of a counter stream) from the reference peer; frame `at` carries the sealed body of frame `from` behind its own length field, |at - from| in {256 (half of the cases), 512, 255, 257, 128, 1}, in either order (an on-path attacker can hold frames back); the intact frames before the spliced one are released first and must all be delivered without an error, then the rest: delivered bytes stay a prefix that ends before the spliced frame and Read reports a non-EOF error; one further case per victim role uses distance 65536; non-trivial = distance >= 255; fingerprint = n, payload, from, at, victim")
+	c.Floor("long-distance-256/long", 0.3)
+	run := func(rt *rapid.T) {
+		rk := rapid.Uint64().Draw(rt, "randKey")
+		defer vfRandSeedKey(rk)()
+		br, _ := vfGenBridge(rt, []int{0})
+		victimIsClient := rapid.Bool().Draw(rt, "victimIsClient")
+		dist := rapid.SampledFrom([]int{256, 256, 256, 256, 512, 255, 257, 128, 1}).Draw(rt, "distance")
+		a := rapid.IntRange(0, 40).Draw(rt, "first")
+		b := a + dist
+		n := b + 1 + rapid.IntRange(1, 5).Draw(rt, "tail")
+		from, at := a, b
+		if rapid.IntRange(0, 3).Draw(rt, "laterBodyFirst") == 0 {
+			from, at = b, a
+		}
+		payload := rapid.SampledFrom([]int{1, 5, 8}).Draw(rt, "payload")
+		readBuf := rapid.SampledFrom([]int{7, 1427, 65536}).Draw(rt, "readBuf")
+		if msg := vfC05LongRun(br, rapid.Uint64().Draw(rt, "refEntropy"), victimIsClient, n, payload, from, at, readBuf); msg != "" {
+			rt.Fatalf("%s\nvictimIsClient=%v n=%d payload=%d from=%d at=%d readBuf=%d", msg, victimIsClient, n, payload, from, at, readBuf)
+		}
+		cls := []string{"long", map[bool]string{true: "victim-client", false: "victim-server"}[victimIsClient]}
+		if dist == 256 {
+			cls = append(cls, "long-distance-256")
+		}
+		c.Case(ev.Hash("long", n, payload, from, at, victimIsClient, readBuf), dist >= 255, cls, func() any {
+			return map[string]any{"victim_is_client": victimIsClient, "frames": n, "payload": payload, "body_of": from, "spliced_into": at, "read_buf": readBuf}
+		})
+	}
+	rapid.Check(t, run)
+	{
+		br := vfBridge{ID: refobfs4.NewIdentity(vfEnt(77)(52)), Seed: vfEnt(78)(24)}
+		for _, vc := range []bool{true, false} {
+			if msg := vfC05LongRun(br, 7, vc, 65536+12, 1, 3, 3+65536, 65536); msg != "" {
+				t.Fatalf("%s\nvictimIsClient=%v n=%d payload=1 from=3 at=%d", msg, vc, 65536+12, 3+65536)
+			}
+			c.Case(ev.Hash("long64k", vc), true, []string{"long", "long-distance-65536"}, func() any { return map[string]any{"victim_is_client": vc, "frames": 65536 + 12} })
+		}
+	}
+}
+
 func vfDummyFrames(specs []vfFrameSpec) [][]byte {
 	all := append(append([]vfFrameSpec(nil), specs...), vfFrameSpec{0, 1427, 0}, vfFrameSpec{0, 1427, 0}, vfFrameSpec{0, 1427, 0})
 	out := make([][]byte, len(all))
